@@ -281,7 +281,10 @@ sds_read_header (SF_PRIVATE *psf, SDS_PRIVATE *psds)
 
 	for (blockcount = 0 ; bytesread < psf->filelength ; blockcount++)
 	{
-		bytesread += (int) psf_fread (&marker, 1, 2, psf) ;
+		/* Stop at the real end of the data, whatever the reported file length says. */
+		if (psf_fread (&marker, 1, 2, psf) != 2)
+			break ;
+		bytesread += 2 ;
 
 		if (marker == 0)
 			break ;
